@@ -73,6 +73,12 @@ model/Cache.vos model/Cache.vok model/Cache.required_vos: model/Cache.v gen/Para
 model/Check20.vo model/Check20.glob model/Check20.v.beautified model/Check20.required_vo: model/Check20.v gen/Params.vo model/Bytes.vo model/Cache.vo
 model/Check20.vio: model/Check20.v gen/Params.vio model/Bytes.vio model/Cache.vio
 model/Check20.vos model/Check20.vok model/Check20.required_vos: model/Check20.v gen/Params.vos model/Bytes.vos model/Cache.vos
+model/IterQuery.vo model/IterQuery.glob model/IterQuery.v.beautified model/IterQuery.required_vo: model/IterQuery.v gen/Params.vo model/Bytes.vo model/Crc32c.vo model/Id.vo model/Node.vo model/BSearch.vo model/Closest.vo
+model/IterQuery.vio: model/IterQuery.v gen/Params.vio model/Bytes.vio model/Crc32c.vio model/Id.vio model/Node.vio model/BSearch.vio model/Closest.vio
+model/IterQuery.vos model/IterQuery.vok model/IterQuery.required_vos: model/IterQuery.v gen/Params.vos model/Bytes.vos model/Crc32c.vos model/Id.vos model/Node.vos model/BSearch.vos model/Closest.vos
+model/Check07.vo model/Check07.glob model/Check07.v.beautified model/Check07.required_vo: model/Check07.v gen/Params.vo model/Bytes.vo model/Crc32c.vo model/Id.vo model/Node.vo model/BSearch.vo model/Closest.vo model/RTable.vo model/Check11.vo model/IterQuery.vo
+model/Check07.vio: model/Check07.v gen/Params.vio model/Bytes.vio model/Crc32c.vio model/Id.vio model/Node.vio model/BSearch.vio model/Closest.vio model/RTable.vio model/Check11.vio model/IterQuery.vio
+model/Check07.vos model/Check07.vok model/Check07.required_vos: model/Check07.v gen/Params.vos model/Bytes.vos model/Crc32c.vos model/Id.vos model/Node.vos model/BSearch.vos model/Closest.vos model/RTable.vos model/Check11.vos model/IterQuery.vos
 model/Check12.vo model/Check12.glob model/Check12.v.beautified model/Check12.required_vo: model/Check12.v gen/Params.vo model/Bytes.vo model/Crc32c.vo model/Id.vo model/Node.vo model/BSearch.vo model/Closest.vo model/RTable.vo model/Check11.vo
 model/Check12.vio: model/Check12.v gen/Params.vio model/Bytes.vio model/Crc32c.vio model/Id.vio model/Node.vio model/BSearch.vio model/Closest.vio model/RTable.vio model/Check11.vio
 model/Check12.vos model/Check12.vok model/Check12.required_vos: model/Check12.v gen/Params.vos model/Bytes.vos model/Crc32c.vos model/Id.vos model/Node.vos model/BSearch.vos model/Closest.vos model/RTable.vos model/Check11.vos
@@ -157,3 +163,9 @@ properties/C20.vos properties/C20.vok properties/C20.required_vos: properties/C2
 properties/C06.vo properties/C06.glob properties/C06.v.beautified properties/C06.required_vo: properties/C06.v model/Bytes.vo model/Inflight.vo model/PutQuery.vo proofs/InflightProofs.vo proofs/PutQueryProofs.vo
 properties/C06.vio: properties/C06.v model/Bytes.vio model/Inflight.vio model/PutQuery.vio proofs/InflightProofs.vio proofs/PutQueryProofs.vio
 properties/C06.vos properties/C06.vok properties/C06.required_vos: properties/C06.v model/Bytes.vos model/Inflight.vos model/PutQuery.vos proofs/InflightProofs.vos proofs/PutQueryProofs.vos
+proofs/IterQueryProofs.vo proofs/IterQueryProofs.glob proofs/IterQueryProofs.v.beautified proofs/IterQueryProofs.required_vo: proofs/IterQueryProofs.v gen/Params.vo model/Bytes.vo model/Crc32c.vo model/Id.vo model/Node.vo model/BSearch.vo model/Closest.vo model/IterQuery.vo proofs/BSearchProofs.vo proofs/ClosestProofs.vo
+proofs/IterQueryProofs.vio: proofs/IterQueryProofs.v gen/Params.vio model/Bytes.vio model/Crc32c.vio model/Id.vio model/Node.vio model/BSearch.vio model/Closest.vio model/IterQuery.vio proofs/BSearchProofs.vio proofs/ClosestProofs.vio
+proofs/IterQueryProofs.vos proofs/IterQueryProofs.vok proofs/IterQueryProofs.required_vos: proofs/IterQueryProofs.v gen/Params.vos model/Bytes.vos model/Crc32c.vos model/Id.vos model/Node.vos model/BSearch.vos model/Closest.vos model/IterQuery.vos proofs/BSearchProofs.vos proofs/ClosestProofs.vos
+properties/C07.vo properties/C07.glob properties/C07.v.beautified properties/C07.required_vo: properties/C07.v gen/Params.vo model/Bytes.vo model/Crc32c.vo model/Id.vo model/Node.vo model/BSearch.vo model/Closest.vo model/IterQuery.vo proofs/ClosestProofs.vo proofs/IterQueryProofs.vo
+properties/C07.vio: properties/C07.v gen/Params.vio model/Bytes.vio model/Crc32c.vio model/Id.vio model/Node.vio model/BSearch.vio model/Closest.vio model/IterQuery.vio proofs/ClosestProofs.vio proofs/IterQueryProofs.vio
+properties/C07.vos properties/C07.vok properties/C07.required_vos: properties/C07.v gen/Params.vos model/Bytes.vos model/Crc32c.vos model/Id.vos model/Node.vos model/BSearch.vos model/Closest.vos model/IterQuery.vos proofs/ClosestProofs.vos proofs/IterQueryProofs.vos
